@@ -37,9 +37,21 @@ theorem element_wise_methods_listed_partial :
     writesOf measurementWrites "BaseMeasurements.phase" = some [] ∧ writesOf measurementWrites "BaseMeasurements.abs" = some [] ∧
     writesOf measurementWrites "BaseMeasurements.intensity" = some [] := by decide +kernel
 
-/-- among the methods of abtem/array.py only the explicit setter `set_ensemble_axes_metadata` writes to the receiver -/
-theorem array_object_methods_no_receiver_writes_partial :
-    offenders arrayObjectWrites = ["ArrayObject.set_ensemble_axes_metadata"] := by decide +kernel
+/-- among the methods of abtem/array.py exactly two write to the receiver's observable state: the explicit setter
+`set_ensemble_axes_metadata`, and `_arithmetic`, which applies a dynamically named NumPy operator to `self.array`
+(`getattr(self.array, func)(other)`): for `func = "__imul__"` etc. that IS a write of the receiver's array — in-place operators
+are in-place by request — for `"__mul__"` etc. NumPy allocates the result.  Which name each operator passes is the next theorem. -/
+theorem array_object_methods_receiver_writes_partial :
+    offenders arrayObjectWrites = ["ArrayObject._arithmetic", "ArrayObject.set_ensemble_axes_metadata"] := by decide +kernel
+
+/-- the names handed to `_arithmetic` / `_in_place_arithmetic` (literals in the source): every operator passes exactly its own
+name, so the only operators that reach an in-place NumPy method are the in-place operators themselves (`__imul__`, `__iadd__`,
+`__isub__`, `__itruediv__`); a slip such as `__mul__` passing `"__imul__"` breaks this theorem. -/
+theorem operators_pass_their_own_name_partial :
+    operatorNames.all (fun r => r.2.getD 1 "" == r.1) = true ∧
+    (operatorNames.filter (fun r => ["__imul__", "__iadd__", "__isub__", "__itruediv__", "__ipow__"].contains (r.2.getD 1 ""))).map (·.1)
+      = ["__imul__", "__itruediv__", "__isub__", "__iadd__"] := by
+  decide +kernel
 
 /-- Potential / frozen-phonon / Bloch-wave classes (abtem/potentials/iam.py, abtem/inelastic/phonons.py,
 abtem/bloch/dynamical.py): no function or method receiving `atoms` writes through it, directly or through a
